@@ -283,7 +283,7 @@ def _make_hub(case):
             self.draws += 1
             if method == "binomial":
                 nn, p = args[0], float(np.asarray(args[1]).reshape(-1)[0])
-                if nn != 1 or case["mode"] == "D":
+                if nn != 1 or case.get("mode") == "D":
                     nn = int(nn)
                     # how many of nn shots survive a postselection: any count with non-zero probability is a
                     # legal answer; the policy picks one (never 0 of a positive number unless p is 0)
